@@ -7,6 +7,7 @@ from ..sym.strs import SStr, SBytes, mks, mkb, cterms, bterms, s_is_sym, b_is_sy
 from ..refsem import MIN64, MAX64, MAXU64
 
 _mods = {}
+_parsers = {}
 
 
 def mods():
@@ -27,8 +28,9 @@ def make_program(src, runner, functions=None, annotations=None, package=None):
     first runner kind that created it (a history dependence that C05 checks; every other harness factors it out)."""
     celpy, ct, ev = mods()
     R = celpy.InterpretedRunner if runner == "interp" else celpy.CompiledRunner
-    celpy.CELParser.CEL_PARSER = None
+    celpy.CELParser.CEL_PARSER = _parsers.get(runner)  # one Lark object per tree class (never the other kind's)
     env = celpy.Environment(package=package, annotations=annotations, runner_class=R)
+    _parsers[runner] = celpy.CELParser.CEL_PARSER
     ast = env.compile(src)
     return env.program(ast, functions=functions)
 
